@@ -57,9 +57,9 @@ def strategy(date, ctx):
         if others and draw(st.booleans()):
             # a second earner with a fixed wage (e.g. the other needs unit of the household)
             rent = (rent, int(draw(st.sampled_from(others))), draw(st.sampled_from([450.0, 800.0, 1000.0, 1200.0, 1600.0, 2400.0])))
-        # one sweep in four runs over the *wealth* of the household (fixed wage): the wealth checks
+        # one sweep in three runs over the *wealth* of the household (fixed wage): the wealth checks
         # of ALG II / Kinderzuschlag / Wohngeld have their own break-even points
-        if draw(st.integers(0, 3)) == 0:
+        if draw(st.integers(0, 2)) == 0:
             wage = draw(st.sampled_from([0.0, 900.0, 1250.0, 1600.0, 2200.0, 3000.0]))
             return _Case((pop, who, draw(st.sampled_from([20000.0, 45000.0, 90000.0])), npts, zero_other, ("sweep", wage), rent))
         return _Case((pop, who, top, npts, zero_other, wealth, rent))
@@ -89,7 +89,11 @@ def build_sweep(df, who, top, npts, zero_other, wealth, rent, guide=None):
     hhs = {int(h): i for i, h in enumerate(sorted(set(base["hh_id"].tolist())))}
     grid = np.round(np.linspace(0.0, top, npts), 2)
     if wealth_sweep and guide is not None:
-        grid = np.round(np.linspace(max(guide - 600.0, 0.0), guide + 1400.0, npts), 2)
+        guides = list(guide) if isinstance(guide, (list, tuple)) else [guide]
+        per = max(2, npts // len(guides))
+        grid = np.round(np.concatenate([np.linspace(max(g - 600.0, 0.0), g + 1400.0, per) for g in guides])[:npts], 2)
+        if len(grid) < npts:
+            grid = np.concatenate([grid, np.round(np.linspace(0.0, top, npts - len(grid)), 2)])
     parts = []
     for k, w in enumerate(grid):
         d = base.copy()
@@ -171,14 +175,28 @@ def oracle(case, date, sh, ctx):
     pop, who, top, npts, zero_other, wealth, rent = case
     guide = None
     if isinstance(wealth, (tuple, list)):
-        # generator guidance only: put the wealth grid around the exemption the system itself
+        # generator guidance only: the wealth checks matter where a benefit would be paid without wealth, so
+        # the fixed wage of a wealth sweep is moved to a wage at which the system itself pays Kinderzuschlag
+        # (else Wohngeld) to this household with zero wealth, if there is one
+        try:
+            wprobe, wgrid, wn = build_sweep(pop.df, who, 4800.0, 25, zero_other, 0.0, rent)
+            wres = env.simulate(wprobe, date, targets=["kinderzuschl_m_bg", "wohngeld_m_wthh"])
+            kz = wres["kinderzuschl_m_bg"].to_numpy().reshape(25, wn).max(axis=1)
+            wo = wres["wohngeld_m_wthh"].to_numpy().reshape(25, wn).max(axis=1)
+            cand = [float(w) for w, v in zip(wgrid, kz) if v > 0] or [float(w) for w, v in zip(wgrid, wo) if v > 0]
+            if cand:
+                wealth = ("sweep", cand[(len(pop.df) + int(top)) % len(cand)])
+                sh.classes["wealth-sweep-at-wage-with-benefit"] += 1
+        except Exception:  # noqa: BLE001
+            pass
+        # ... and put the wealth grid around the exemption the system itself
         # computes for this household (a narrow band above it decides the wealth checks)
         probe, _, _ = build_sweep(pop.df, who, 0.0, 1, zero_other, wealth, rent)
         try:
             pr = env.simulate(probe, date, targets=["kinderzuschl_vermög_freib_bg", "arbeitsl_geld_2_vermög_freib_bg"])
             cands = sorted(set(float(v) for v in pr.to_numpy().ravel() if np.isfinite(v) and v > 0))
             if cands:
-                guide = cands[(len(pop.df) + int(top)) % len(cands)]
+                guide = cands[:4]  # the grid covers a band around each exemption
         except Exception:  # noqa: BLE001
             guide = None
     sweep, grid, n = build_sweep(pop.df, who, top, npts, zero_other, wealth, rent, guide)
